@@ -113,6 +113,7 @@ type Exec struct {
 	pureDepth  int
 	selfFn     *FuncInfo
 	pruneMode  bool
+	ifaceOver  map[*Value]map[string]bool
 	pruneMemo  map[*Term]bool
 	Pruned     int
 	skipWrapped bool
